@@ -1,7 +1,7 @@
 (* One entry point for the OCaml runner: op name and byte-string arguments
    in, (result bytes, tag text) out.  All structure is decoded here, in Coq. *)
 From Coq Require Import NArith ZArith List Bool String.
-From GJ Require Import Base.Bytes Base.Show Model.Int Model.StrEnc Model.StrDec Model.Compact Model.Iface Spec.Json.
+From GJ Require Import Base.Bytes Base.Show Model.Int Model.StrEnc Model.StrDec Model.Compact Model.Iface Model.Path Spec.Json.
 Import ListNotations.
 Open Scope N_scope.
 Open Scope string_scope.
@@ -60,4 +60,9 @@ Definition dispatch (op : list N) (args : list (list N)) : list N * list N :=
     (* arg0 = "1" when every number of the text fits float64 (strconv oracle) *)
     (match iface_unmarshal (fun _ => N.eqb (nth 0 (arg 0 args) 48) 49) (arg 1 args) with
      | COk _ => [65] | CErr => [82] | CFuel => str "fuel" | CStuck => str "stuck" end, [])
+  else if list_eqb op (str "c20.build") then
+    (match build (arg 0 args) with
+     | BStuck => str "stuck" | BFuel => str "fuel" | BErr => [69]
+     | BOk nodes sq dq => 79 :: print_path nodes ++ [32] ++ show_bool sq ++ show_bool dq
+     end, [])
   else (str "no-model", []).
